@@ -893,6 +893,12 @@ func vwBudget(r *vfRng, st *vfStats) vfCase {
 		su.out = append(su.out, p)
 		id++
 	}
+	if nu > 0 && r.chance(50) {
+		// one broadcast with no payload at all: on the wire it is the type byte alone
+		want[string([]byte{byte(userMsg)})] = id
+		su.out = append([][]byte{{}}, su.out...)
+		id++
+	}
 	before := map[string]int{}
 	sm.broadcasts.mu.Lock()
 	sm.broadcasts.walkReadOnlyLocked(false, func(lb *limitedBroadcast) bool { before[string(lb.b.Message())] = lb.transmits; return true })
